@@ -320,6 +320,37 @@ def dynamicUpdate (fentryAddr minSize : Nat) (verdict : Module → String → Op
   let w1 := doDynamicUpdate fentryAddr minSize verdict w
   { w1 with pages := freezeAll w1.mods w1.pages }
 
+/-! ### module type detection: the signature scan of mcount_arch_find_module -/
+
+/-- a symtab entry as the scan sees it; `lg` = type is LOCAL_FUNC or GLOBAL_FUNC
+    (weak functions are not looked at) -/
+structure DSym where
+  name : String
+  addr : Nat
+  lg : Bool
+  deriving Repr, DecidableEq
+
+/-- one iteration of the loop at arch/x86_64/mcount-dynamic.c:208: symbols whose
+    name starts with '_' are skipped; a hit is one of the four NOP patterns at the
+    symbol's address.  The code as it is (`fixed = false`) compares at the very
+    first byte; the repaired code (`fixed = true`) first skips an endbr64, exactly
+    like patch_fentry_code does. -/
+def scanHit (fixed : Bool) (c : Code) (s : DSym) : Bool :=
+  s.lg && !(s.name.toList.head? == some '_') &&
+    isNopPrologue c (if fixed then prologueOff c s.addr else s.addr)
+
+/-- mcount_arch_find_module: `sect` = type given by a `__patchable_function_entries`
+    / `xray_instr_map` section if there is one; otherwise the signature scan; otherwise
+    `fallback` = what check_trace_functions says (pg / fentry / none). -/
+def detectTypeG (fixed : Bool) (sect : Option DynType) (c : Code) (syms : List DSym)
+    (fallback : DynType) : DynType :=
+  match sect with
+  | some t => t
+  | none => if syms.any (scanHit fixed c) then .fentryNop else fallback
+
+/-- the repaired behaviour (see known finding: endbr64 + NOP is not detected) -/
+def detectType := detectTypeG true
+
 /-- observable "this function now calls the tracer": the byte at the patch
     site is the call opcode -/
 def instrumented (c : Code) (s : Sym) : Bool := rd c (prologueOff c s.addr) == 0xe8
